@@ -227,7 +227,11 @@ SHAPES = {
     "list": (["{I}x = [", "{I}    1,", "{I}]{T}"], ["", " + [2]", "  # c"]),
     "dict": (["{I}x = {{", "{I}    1: 2,", "{I}}}{T}"], ["", "  # c"]),
     "hang": (["{I}x = foo(1,", "{I}        2){T}"], ["", " + 1"]),
-    "tstr": (['{I}x = \'\'\'', "text", "{I}\'\'\'{T}"], [""]),
+    "tstr": (['{I}x = \'\'\'', "text", "{I}\'\'\'{T}"], ["", ".strip()", " + 'x'"]),
+    # continuation lines that are not indented deeper than the statement and do not start with a closing bracket
+    "bslash": (["{I}x = a + \\", "{I}b{T}"], ["", ".pop()"]),
+    "samecol": (["{I}x = (1 +", "{I}2){T}"], ["", " + 3"]),
+    "tstr2": (['{I}x = foo(\'\'\'', "text", "\'\'\', 1){T}"], ["", ".bar"]),
     "single": (["{I}x = 1{T}"], ["", "  # c"]),
 }
 
